@@ -74,6 +74,13 @@ def enum_jobs(tier):
     return js
 
 
+def sys_jobs(hs, tier):
+    sj = [wmmlib.sys_job(hs, "sysbd", 0, 2, "l1,l2,l3,l4,l5"), wmmlib.sys_job(hs, "sysbd", 0, 3, "l1,l2,l3,l4,x")]
+    if tier != "quick":
+        sj += [wmmlib.sys_job(hs, "sysbd", 0, 3, "l1,l2,l3,l4,l5,l6", deadline=1500), wmmlib.sys_job(hs, "sysbd", 1, 1, "l1,l2,l3,l4", "l1,l2,l3,l4", deadline=1500)]
+    return sj
+
+
 def run(ctx):
     ctx.rule = ("all schedules up to the preemption bound of 1-2 threads x up to 6 operations from {log small / half-capacity / "
                 "oversize, flush_log, init_backtrace, LOG_BACKTRACE, flush_backtrace, remove_logger_blocking, thread exit} on "
@@ -94,9 +101,7 @@ def run(ctx):
     ctx.absorb(rr, "h_queues(counter)")
     # whole system on a 128-byte dropping queue: real log calls (some refused), real backend polls and drop reports
     hs = wmmlib.build_sys()
-    sj = [wmmlib.sys_job(hs, "sysbd", 0, 2, "l1,l2,l3,l4,l5"), wmmlib.sys_job(hs, "sysbd", 0, 3, "l1,l2,l3,l4,x")]
-    if ctx.tier != "quick":
-        sj += [wmmlib.sys_job(hs, "sysbd", 0, 3, "l1,l2,l3,l4,l5,l6", deadline=1500), wmmlib.sys_job(hs, "sysbd", 1, 1, "l1,l2,l3,l4", "l1,l2,l3,l4", deadline=1500)]
+    sj = sys_jobs(hs, ctx.tier)
     wmmlib.run_sys(ctx, sj)
     ctx.assumptions.append("three outcomes of a log call: true, false, threw QuillError (accepted only for an unbounded queue and a statement larger than its maximum capacity)")
 
